@@ -606,7 +606,7 @@ def run(ctx):
     order = sorted((i for i, code in enumerate(codes) if code),
                    key=lambda i: (codes[i] < 2, len(cases[i].get("ops", []))))
     nfail = sum(1 for i in order if codes[i] >= 2)
-    for i in order[:12]:
+    for i in order[:6]:
         code = codes[i]
         c = cases[i]
         if code >= 2:
